@@ -1053,6 +1053,28 @@ example : ∃ limit, readEvents classifyLine limit (fileAfter ets [] (runCmd [] 
   obtain ⟨l, h⟩ := one_step_exists
   exact ⟨l, (C12_file_decodes_to_the_log h).1⟩
 example : (runCmd [] envA reqA).log.length = 3 := by decide
+/-- C06 / C07 / C14 on disk: the same one-command history satisfies both environment assumptions at once (`DiskReach`) -/
+theorem envA_OK : EnvOK Graph.empty envA := by
+  refine ⟨?_, ?_, ?_, ?_⟩
+  · intro i hi; simp [envA] at hi; rcases hi with rfl | rfl <;> decide
+  · simp [envA]
+  · intro n hn; simp [envA] at hn; rcases hn with rfl | rfl | rfl <;> decide
+  · intro t ht; simp [Graph.empty] at ht
+theorem one_step_on_disk : ∃ limit, DiskReach limit (runCmd [] envA reqA).log (fileAfter ets [] (runCmd [] envA reqA).write) := by
+  obtain ⟨l, hl⟩ := short_exists (encodeEvent ets) (runCmd [] envA reqA).log
+  exact ⟨l, .step (g := Graph.empty) envA reqA ets .init rfl envA_OK envA_T (fun e he => (hl e he).2)⟩
+example : ∃ limit g, readEvents classifyLine limit (fileAfter ets [] (runCmd [] envA reqA).write) = .ok (runCmd [] envA reqA).log ∧
+    replay (runCmd [] envA reqA).log = .ok g ∧ Inv06 g := by
+  obtain ⟨l, h⟩ := one_step_on_disk
+  exact ⟨l, C06_inv_holds_of_the_bytes_on_disk h⟩
+example : ∃ limit g, readEvents classifyLine limit (fileAfter ets [] (runCmd [] envA reqA).write) = .ok (runCmd [] envA reqA).log ∧
+    replay (runCmd [] envA reqA).log = .ok g ∧ Inv07 g := by
+  obtain ⟨l, h⟩ := one_step_on_disk
+  exact ⟨l, C07_inv_holds_of_the_bytes_on_disk h⟩
+example : ∃ limit g, readEvents classifyLine limit (fileAfter ets [] (runCmd [] envA reqA).write) = .ok (runCmd [] envA reqA).log ∧
+    replay (runCmd [] envA reqA).log = .ok g ∧ Inv14 g := by
+  obtain ⟨l, h⟩ := one_step_on_disk
+  exact ⟨l, C14_inv_holds_of_the_bytes_on_disk h⟩
 
 /-! ### the byte-level process system: one of ergo's own commands (`claim`) as a writer on the JSON file of the demo history -/
 section BytesRun
